@@ -488,17 +488,26 @@ Proof.
 Qed.
 
 (* what an accepting run of the per-frame entry point establishes *)
-Theorem check_frame_unfold : forall prog fuel ctbl atbl physl ridx pre after,
-  check_frame prog fuel ctbl atbl physl ridx pre after = true ->
+Theorem entry_live_sound : forall prog live allowed,
+  check_live prog live = true -> check_entry_live prog live allowed = true ->
+  forall r, live_in prog r 0%nat -> In r allowed.
+Proof.
+  intros prog live allowed H1 H2 r Hr. unfold check_entry_live in H2.
+  eapply subset_In; eauto. now apply (liveness_fixpoint_sound prog live H1 r 0%nat).
+Qed.
+
+Theorem check_frame_unfold : forall prog fuel ctbl atbl physl extra ridx pre after,
+  check_frame prog fuel ctbl atbl physl extra ridx pre after = true ->
   let live := compute_live prog fuel in
   let removed := removed_flags ridx (length prog) in
   check_alloc prog live (color_of ctbl) (alias_of atbl) physl removed = true /\
+  check_entry_live prog live (physl ++ extra) = true /\
   check_precoloured (color_of ctbl) pre = true /\
   compact removed (target (color_of ctbl) prog removed) = after.
 Proof.
-  intros prog fuel ctbl atbl physl ridx pre after H live removed.
+  intros prog fuel ctbl atbl physl extra ridx pre after H live removed.
   unfold check_frame, check_frame_cert in H. rewrite !andb_true_iff in H.
-  destruct H as [[H1 H2] H3]. split; auto. split; auto.
+  destruct H as [[[H1 H0] H2] H3]. split; auto. split; auto. split; auto.
   unfold check_rewritten in H3. fold live removed in H3.
   revert H3. generalize (compact removed (target (color_of ctbl) prog removed)).
   assert (Lz : forall a b : list Z, list_eqb Z.eqb a b = true -> a = b).
